@@ -254,6 +254,8 @@ def run(ctx):
                      gen_cfg.model_and_spec(collide=True, force=['partial_spelling', 'deep_ns']),
                      gen_cfg.model_and_spec(force=['repeat_ns']),
                      gen_cfg.model_and_spec(force=['name_like_ns']),
+                     gen_cfg.model_and_spec(force=['dict_names', 'deep_ns', 'partial_spelling']),
+                     gen_cfg.model_and_spec(collide=True, force=['dict_names']),
                      gen_cfg.model_and_spec(collide=True, force=['name_like_ns', 'deep_ns']),
                      gen_cfg.model_and_spec(collide=True, force=['repeat_ns', 'many_ports']),
                      gen_cfg.model_and_spec(collide=True, want_mc=True,
